@@ -9,6 +9,6 @@ int FindAndDelete(CScript& script, const CScript& b);
 bool g_getop_ok; opcodetype g_getop_opcode; verif_bytes g_getop_push; size_t g_getop_adv; int g_getop_calls;
 int g_hash_algo; int g_hash_calls; verif_bytes g_hash_in; unsigned char g_hash_out[32];
 bool g_locktime_ok, g_sequence_ok; int g_locktime_calls, g_sequence_calls; int64_t g_locktime_arg, g_sequence_arg;
-int g_ecdsa_calls; bool g_ecdsa_ok[24]; verif_bytes g_ecdsa_sig[24]; verif_bytes g_ecdsa_key[24]; int g_ecdsa_sigversion[24];
+int g_ecdsa_calls; bool g_ecdsa_ok[VERIF_ORACLE_N]; verif_bytes g_ecdsa_sig[VERIF_ORACLE_N]; verif_bytes g_ecdsa_key[VERIF_ORACLE_N]; int g_ecdsa_sigversion[VERIF_ORACLE_N];
 int g_schnorr_calls; bool g_schnorr_ok; int g_schnorr_err; verif_bytes g_schnorr_sig, g_schnorr_key; int g_schnorr_sigversion;
 int verif_expect_throw; int verif_thrown;
